@@ -679,7 +679,7 @@ func stringJoinFunc(q, arg1 query) func(query, iterator) interface{} {
 			}
 		}
 
-		q = functionArgs(q)
+		q := functionArgs(q)
 		test := predicate(q)
 		var parts []string
 		switch v := q.Evaluate(t).(type) {
